@@ -834,13 +834,22 @@ class Node:
                 return  # already removed as descendant of another clone
             assert not self.is_clone()
 
+        pc = self._parent._children
         if keep_children:
-            for c in self.children.copy():
-                c.move_to(self._parent, before=self)
+            # Check this before any child is moved
+            sibling_ids = {n._data_id for n in pc if n is not self}  # type: ignore
+            for c in self.children:
+                if c._data_id in sibling_ids:
+                    raise UniqueConstraintError("Node.data already exists in parent")
+            # Children take the place of this node
+            idx = _index_by_identity(pc, self)  # type: ignore
+            for c in self.children:
+                c._parent = self._parent
+            pc[idx:idx] = self.children  # type: ignore
+            self._children = None
         else:
             self.remove_children()
 
-        pc = self._parent._children
         del pc[_index_by_identity(pc, self)]  # type: ignore
         if not pc:  # store None instead of `[]`
             pc = self._parent._children = None
